@@ -478,7 +478,7 @@ func (c *fnCtx) mergeInto(b *ssa.BasicBlock) *State {
 		if err != nil {
 			c.abort("%s: invariant: %v", inv.Pos, err)
 		}
-		c.oblige(st, fmt.Sprintf("inv-entry:%d", li.ordinal), t, inv.Text, inv.Props, b.Instrs[0].Pos())
+		c.oblige(st, invKind("inv-entry", li.ordinal, inv.Label), t, inv.Text, inv.Props, b.Instrs[0].Pos())
 	}
 	// havoc: phis and modified components
 	for _, in := range b.Instrs {
@@ -1016,7 +1016,7 @@ func (c *fnCtx) checkBackEdge(from, to *ssa.BasicBlock, st *State, ec string) {
 		if err != nil {
 			c.abort("%s: invariant: %v", inv.Pos, err)
 		}
-		c.oblige(bst, fmt.Sprintf("inv-preserve:%d", li.ordinal), t, inv.Text, inv.Props, to.Instrs[0].Pos())
+		c.oblige(bst, invKind("inv-preserve", li.ordinal, inv.Label), t, inv.Text, inv.Props, to.Instrs[0].Pos())
 	}
 	for phi, v := range saved {
 		c.vals[phi] = v
@@ -1436,6 +1436,9 @@ func (c *fnCtx) frameObligations(normal []retSite) {
 			}
 		}
 	}
+	for _, gc := range c.con.GhostComps {
+		whole[gc] = true
+	}
 	var comps []string
 	for k := range c.comps {
 		if !whole[k] {
@@ -1549,4 +1552,13 @@ func (c *fnCtx) addrOfVar(name string) (string, types.Type, bool) {
 		}
 	}
 	return "", nil, false
+}
+
+// invKind names an invariant obligation; a labelled invariant clause gets its own name so that
+// a finding about it can be recorded precisely.
+func invKind(kind string, ordinal int, label string) string {
+	if label != "" {
+		return fmt.Sprintf("%s:%d:%s", kind, ordinal, label)
+	}
+	return fmt.Sprintf("%s:%d", kind, ordinal)
 }
